@@ -17,6 +17,7 @@ import (
 	"github.com/google/martian/v3"
 	"github.com/google/martian/v3/fifo"
 	"github.com/google/martian/v3/har"
+	"github.com/google/martian/v3/trafficshape"
 	"pgregory.net/rapid"
 
 	"verifharness/internal/kit"
@@ -49,6 +50,8 @@ type Case struct {
 	// ConnectFirst (kind dial, proxy without MITM): request 1 is a CONNECT to
 	// the unreachable target instead of a plain request.
 	ConnectFirst bool `json:"connect_first,omitempty"`
+	// Shaped: the proxy is served on a trafficshape.Listener without shapes.
+	Shaped bool `json:"shaped,omitempty"`
 }
 
 const marker2 = "MARKER-TWO-7f3a91c2"
@@ -224,6 +227,9 @@ func runOnce(c Case, T time.Duration) (v kit.Verdict) {
 	if c.Logger {
 		sh += "-with-har-logger"
 	}
+	if c.Shaped {
+		sh += "-on-shaped-listener"
+	}
 	sig := func(class string) string { return "C03/" + sh + "/" + class }
 
 	healthy := netkit.NewOrigin(func(r *netkit.ReqLog) netkit.Script {
@@ -285,7 +291,11 @@ func runOnce(c Case, T time.Duration) (v kit.Verdict) {
 	} else {
 		p.SetResponseModifier(stamp)
 	}
-	pr := netkit.Start(p, nil)
+	var wrap func(net.Listener) net.Listener
+	if c.Shaped {
+		wrap = func(l net.Listener) net.Listener { return trafficshape.NewListener(l) }
+	}
+	pr := netkit.Start(p, wrap)
 	defer pr.Stop(10 * time.Second)
 
 	conn, err := net.DialTimeout("tcp", pr.Addr, 5*time.Second)
@@ -479,6 +489,9 @@ func classes(c Case) []string {
 	if c.Logger {
 		out = append(out, "har-logger-in-response-path")
 	}
+	if c.Shaped {
+		out = append(out, "traffic-shaped-listener")
+	}
 	return out
 }
 
@@ -494,7 +507,7 @@ var propFaults = &kit.Prop[Case]{ID: "C03", Name: "faults", Rule: "rapid-drawn: 
 	Run: run, NonTrivial: nontrivial, Classes: classes, Journal: true,
 	Gen: func(t *rapid.T) Case {
 		kind := rapid.SampledFrom([]string{"truncate", "truncate", "truncate", "truncate", "dial", "nonhttp"}).Draw(t, "kind")
-		c := Case{Kind: kind, Post: rapid.Bool().Draw(t, "post"), Seed: rapid.Uint64Range(1, 1<<16).Draw(t, "seed"), Logger: rapid.IntRange(0, 2).Draw(t, "logger") == 0}
+		c := Case{Kind: kind, Post: rapid.Bool().Draw(t, "post"), Seed: rapid.Uint64Range(1, 1<<16).Draw(t, "seed"), Logger: rapid.IntRange(0, 2).Draw(t, "logger") == 0, Shaped: rapid.IntRange(0, 4).Draw(t, "shaped") == 0}
 		switch kind {
 		case "dial":
 			c.Dial = rapid.SampledFrom([]string{"refused", "accept-close", "accept-rst"}).Draw(t, "dial")
